@@ -90,10 +90,11 @@ theorem failures_leave_no_usage (a : CreateArgs R) (hnd : (a.plan.map (·.1)).No
     (s : State R) (h : Inv s) : ∀ n, (after (.create a) flt s).usage n = load (after (.create a) flt s) n :=
   (create_inv a hnd flt { st := s } ⟨h, rfl, rfl⟩).2.2
 
-/-- non-vacuity: a concrete two-node plan on the witness state with a fault on the second start:
-three messages, two of them successes. -/
-example : ((run (create (R := Int) { plan := [("n", [2, 1]), ("m", [4])] })
-    (some ⟨"engineStart", "n", 1⟩) Eru.Props.C10.witness).2.msgs.map (·.ok)) = [true, false, true] := by
+/-- non-vacuity: on the witness state a deploy hit at the engine's start call fails, an unhit one
+succeeds with the fresh id 2. -/
+example : (run (deployOne "n" (2 : Int) true) (some ⟨"engineStart", "n", 0⟩) Eru.Props.C10.witness).1 = .fail := by
+  decide
+example : (run (deployOne "n" (2 : Int) true) none Eru.Props.C10.witness).1 = .ok 2 := by
   decide
 
 end Eru.Props.C12
